@@ -69,6 +69,18 @@ def conv_case(geo, rng, res):
         return res.violation(f'get_g_factor differs from the output-gradient second moment (max dev {(G - Gexp).abs().max().item()})', case)
     if tuple(got.shape) != (h.g_factor_shape[0], h.a_factor_shape[0]):
         return res.violation(f'combined gradient shape {tuple(got.shape)} != (G rows, A rows)', case)
+    # the factor functions are given the tensors autograd goes on to use (hook arguments): they must read them only, in
+    # every memory layout (contiguous, channels_last, single channel - where a reshape is a view of the caller's tensor)
+    for lname, conv_ in (('contiguous', lambda t: t.clone()), ('channels_last', lambda t: t.clone().contiguous(memory_format=torch.channels_last))):
+        xa, ga = conv_(x), conv_(go)
+        xa0, ga0 = xa.clone(), ga.clone()
+        res.count('purity_checks')
+        A1, G1 = h.get_a_factor(xa), h.get_g_factor(ga)
+        A1b, G1b = h.get_a_factor(xa), h.get_g_factor(ga)
+        if not (torch.equal(xa, xa0) and torch.equal(ga, ga0)):
+            return res.violation(f'get_a_factor/get_g_factor modified the tensor they were given ({lname} layout, out_channels={co})', case)
+        if not (torch.allclose(A1, Aexp, rtol=1e-9, atol=1e-12) and torch.allclose(G1, Gexp, rtol=1e-9, atol=1e-12) and torch.equal(A1, A1b) and torch.equal(G1, G1b)):
+            return res.violation(f'factors of a {lname} batch differ from the second moments, or a second call on the same tensors gives another result', case)
     # the SAME helper on a later batch of another size (batch and resolution may change from call to call)
     H2, W2, B2 = H + rng.randint(0, 3), W + rng.randint(0, 3), rng.randint(1, 4)
     x2 = torch.randn(B2, ci, H2, W2, generator=g, dtype=torch.float64)
